@@ -1596,4 +1596,31 @@ example : exNamed.bytes = 40 ∧ asmArgSize exNamed = 40 := by decide
 example : ¬ MustResolve exNamed false (.name ['m']) [] := by decide
 example : resolve exNamed false (.name ['m']) [] = .error .notPrimitive := rfl
 
+/-! ## One expression text, two definitions of the type name it mentions
+
+`func(r Rec) uint64` with `Rec = struct{ID, Count uint64}` in one package and
+`Rec = struct{Tag uint8; Hist [3]uint64; ID, Count uint64}` in another package
+of the same import path (seeded change C07-8: a process-wide memo keyed by
+package path and expression text).  The layout follows the definition; the
+answer for the first package violates the specification for the second. -/
+
+def exRecCompact : Ty :=
+  .named ['R', 'e', 'c'] (.struct (.cons ['I', 'D'] (.basic .uint64) (.cons ['C', 'o', 'u', 'n', 't'] (.basic .uint64) .nil)))
+def exRecWide : Ty :=
+  .named ['R', 'e', 'c'] (.struct (.cons ['T', 'a', 'g'] (.basic .uint8) (.cons ['H', 'i', 's', 't'] (.array 3 (.basic .uint64))
+    (.cons ['I', 'D'] (.basic .uint64) (.cons ['C', 'o', 'u', 'n', 't'] (.basic .uint64) .nil)))))
+def exGet (rec : Ty) : Sig := ⟨[⟨[['r']], rec⟩], [⟨[], .basic .uint64⟩]⟩
+
+example : resolve (exGet exRecCompact) false (.name ['r']) [.field ['I', 'D']] =
+    .ok (⟨['r', '_', 'I', 'D'], 0, .fp⟩, .uint64) := rfl
+example : resolve (exGet exRecWide) false (.name ['r']) [.field ['I', 'D']] =
+    .ok (⟨['r', '_', 'I', 'D'], 32, .fp⟩, .uint64) := rfl
+example : (exGet exRecCompact).bytes = 24 ∧ (exGet exRecWide).bytes = 56 := by decide
+example : asmArgSize (exGet exRecWide) = 56 := by decide
+example : ResolveSpec (exGet exRecWide) false (.name ['r']) [.field ['I', 'D']] ⟨⟨['r', '_', 'I', 'D'], 32, .fp⟩, .uint64⟩ := by
+  decide
+example : ¬ ResolveSpec (exGet exRecWide) false (.name ['r']) [.field ['I', 'D']] ⟨⟨['r', '_', 'I', 'D'], 0, .fp⟩, .uint64⟩ := by
+  decide
+example : ¬ ResolveSpec (exGet exRecWide) true (.at 0) [] ⟨⟨['r', 'e', 't'], 16, .fp⟩, .uint64⟩ := by decide
+
 end Avo.Layout
